@@ -435,8 +435,75 @@ fn race_release(rounds: u64, family: usize, seed: u64, rep: &mut Report) {
     }
 }
 
+/// A caller's waker whose `clone()` is not a bit copy of itself: a borrowed waker (no reference count,
+/// its own vtable) that upgrades to an owned one when cloned.  What crosses the boundary and is retained
+/// must be the *clone* the foreign side asked for: waking it wakes the owned waker, releasing it releases
+/// the owned waker.
+mod upgrade {
+    use super::*;
+    use std::sync::atomic::AtomicI64;
+    use std::task::{RawWaker, RawWakerVTable};
+    pub struct Owner {
+        pub owned_live: AtomicI64,
+        pub owned_wakes: AtomicU64,
+        pub borrowed_wakes: AtomicU64,
+        pub borrowed_drops: AtomicU64,
+    }
+    unsafe fn o<'a>(p: *const ()) -> &'a Owner { &*(p as *const Owner) }
+    unsafe fn b_clone(p: *const ()) -> RawWaker { o(p).owned_live.fetch_add(1, Ordering::SeqCst); RawWaker::new(p, &OWNED) }
+    unsafe fn b_wake(p: *const ()) { o(p).borrowed_wakes.fetch_add(1, Ordering::SeqCst); }
+    unsafe fn b_drop(p: *const ()) { o(p).borrowed_drops.fetch_add(1, Ordering::SeqCst); }
+    unsafe fn o_clone(p: *const ()) -> RawWaker { o(p).owned_live.fetch_add(1, Ordering::SeqCst); RawWaker::new(p, &OWNED) }
+    unsafe fn o_wake(p: *const ()) { o(p).owned_wakes.fetch_add(1, Ordering::SeqCst); o(p).owned_live.fetch_sub(1, Ordering::SeqCst); }
+    unsafe fn o_wake_by_ref(p: *const ()) { o(p).owned_wakes.fetch_add(1, Ordering::SeqCst); }
+    unsafe fn o_drop(p: *const ()) { o(p).owned_live.fetch_sub(1, Ordering::SeqCst); }
+    pub static BORROWED: RawWakerVTable = RawWakerVTable::new(b_clone, b_wake, b_wake, b_drop);
+    pub static OWNED: RawWakerVTable = RawWakerVTable::new(o_clone, o_wake, o_wake_by_ref, o_drop);
+
+    pub fn run(rep: &mut Report) {
+        for variant in 0..6u32 {
+            let owner = Arc::new(Owner { owned_live: AtomicI64::new(0), owned_wakes: AtomicU64::new(0), borrowed_wakes: AtomicU64::new(0), borrowed_drops: AtomicU64::new(0) });
+            let borrowed = std::mem::ManuallyDrop::new(unsafe { Waker::from_raw(RawWaker::new(Arc::as_ptr(&owner) as *const (), &BORROWED)) });
+            let store = Arc::new(Mutex::new(vec![]));
+            let family = 1 + (variant as usize % 2);
+            {
+                let mut cx = Context::from_waker(&borrowed);
+                let mut obj = trait_obj!(Grab(store.clone(), family) as Future);
+                let _ = Pin::new(&mut obj).poll(&mut cx);
+            }
+            let handles: Vec<Waker> = std::mem::take(&mut *store.lock().unwrap());
+            let tag = format!("upgrade-on-clone waker, variant {}", variant);
+            let live = owner.owned_live.load(Ordering::SeqCst);
+            if live != 1 {
+                rep.violation(if live > 1 { "C19:clone-not-released" } else { "C19:live-waker-holds-no-reference" }, &format!("{}: {} retained foreign-side handles sharing one clone; the caller's waker counts {} owned clones alive (1 expected)", tag, handles.len(), live), &tag);
+                continue;
+            }
+            let mut want = 0;
+            for (i, h) in handles.into_iter().enumerate() {
+                match (variant / 2 + i as u32) % 3 {
+                    0 => { h.wake_by_ref(); want += 1; drop(h); }
+                    1 => { h.wake(); want += 1; }
+                    _ => drop(h),
+                }
+            }
+            let (ow, bw, live) = (owner.owned_wakes.load(Ordering::SeqCst), owner.borrowed_wakes.load(Ordering::SeqCst), owner.owned_live.load(Ordering::SeqCst));
+            if ow != want || bw != 0 {
+                rep.violation("C19:wake-reached-another-waker", &format!("{}: {} wakes issued on retained handles; the clone the foreign side took was woken {} times, the borrowed original {} times", tag, want, ow, bw), &tag);
+            }
+            if live != 0 {
+                rep.violation("C19:clone-not-released", &format!("{}: after all foreign-side handles are gone the caller's waker still counts {} owned clones", tag, live), &tag);
+            }
+            rep.add("upgrade_waker_cases", 1);
+        }
+    }
+}
+
 pub fn run(args: &Args, rep: &mut Report) {
     let mut rng = Rng::new(args.seed);
+    if args.has("upgrade") {
+        upgrade::run(rep);
+        return;
+    }
     if args.has("race") {
         let rounds = args.get("race", 1000);
         race_release(rounds, 2, args.seed, rep);
